@@ -8,7 +8,7 @@
 (*              what the polygon function will return per feature/part/    *)
 (*              target) -- an input description, not an observation        *)
 (*   SrcSend i  fake source, immediately BEFORE sending feature i          *)
-(*   SrcClose   fake source, after closing its channel                     *)
+(*   SrcClose   fake source, immediately BEFORE closing its channel        *)
 (*   Snap i p   inside the polygon function, part p of feature i           *)
 (*   TgtRecv t i ..  fake target t, AFTER receiving a feature: which       *)
 (*              feature, geometry class and tags, attribute check          *)
